@@ -1,7 +1,8 @@
 #!/venv/bin/python
 """Re-confirm every seeded change and regenerate the records about them (not a property check, not gating).
 
-usage: tools/seeded_records.py run [N-parallel] [runs]   every seeded/<id>/ through bin/mutant-run -> seeded/RESULTS.txt
+usage: tools/seeded_records.py run [N-parallel] [runs] [substring]   every seeded/<id>/ (or those whose id contains the
+                                                          substring) through bin/mutant-run -> seeded/RESULTS.txt
        tools/seeded_records.py records                   RESULTS.txt -> meta.json "verified", sim/mutants/ catalogue,
                                                           the table between the SEEDED-TABLE markers in DESIGN.md
 
@@ -31,6 +32,8 @@ ALSO = {
     "C04-r5m1": ["C05"],
     "C04-r6m1": ["C05"],
     "C04-r6m2": ["C20"],
+    "C04-r7m1": ["C06"],
+    "C04-r7m2": ["C05"],
 }
 NOTE = {
     "C05-r2m2": "trigger outside C05's quantifier",
@@ -44,11 +47,19 @@ NOTE = {
                 "the filament is still retracted - C05's subject",
     "C04-r6m2": "only the offline path (StreamProcessor) is affected, which C04's live job does not go through - "
                 "C20's subject",
+    "C04-r7m1": "needs a retraction riding on a move (outside C04's E-only / firmware cycles) and an enter script; the "
+                "replayed retraction pair is C06's subject (enter_extra)",
+    "C04-r7m2": "the E coordinate is still re-synchronised at the exit; the forgotten recovery (printing resumes "
+                "retracted) is C05's subject",
+    "C14-r7m2": "needs one @-line that triggers disable and then enable in the middle of an episode: the filter's own "
+                "exit travel then re-enters the hook with exclusion on again and is itself excluded, which the "
+                "episode tracker does not model (DESIGN section 11); not generated, not caught",
 }
 MISSED_FIRST_NEW = {"C02-r5m1", "C02-r5m2", "C03-r5m2", "C04-r5m1", "C05-r5m1", "C06-r5m1", "C07-r5m1", "C07-r5m2",
                     "C08-r5m2", "C09-r5m2", "C12-r5m1", "C13-r5m1", "C14-r5m1",
                     "C02-r6m1", "C02-r6m2", "C04-r6m1", "C04-r6m2", "C05-r6m2", "C07-r6m2", "C09-r6m2", "C12-r6m2",
-                    "C15-r6m2", "C20-r6m1", "C20-r6m2"}
+                    "C15-r6m2", "C20-r6m1", "C20-r6m2",
+                    "C02-r7m1", "C04-r7m1", "C04-r7m2", "C06-r7m2", "C11-r7m1", "C14-r7m2", "C20-r7m1"}
 
 
 def ids():
@@ -72,9 +83,19 @@ def run_one(args):
     return i, "=== seeded/%s\n%s\n" % (i, "\n".join(keep))
 
 
-def cmd_run(par, runs):
-    todo = [(i, runs) for i in ids()]
+def cmd_run(par, runs, only=None):
+    todo = [(i, runs) for i in ids() if only is None or any(o in i for o in only.split(","))]
     res = {}
+    if only is not None and os.path.exists(os.path.join(SEEDED, "RESULTS.txt")):
+        cur = None
+        for l in open(os.path.join(SEEDED, "RESULTS.txt")):      # keep the blocks that are not re-run
+            if l.startswith("=== seeded/"):
+                cur = l.strip().split("/")[1]
+                res[cur] = ""
+            if cur is not None:
+                res[cur] += l
+        for i, _ in todo:
+            res.pop(i, None)
     with ThreadPoolExecutor(max_workers=par) as ex:
         for k, (i, text) in enumerate(ex.map(run_one, todo)):
             res[i] = text
@@ -143,7 +164,9 @@ def cmd_records():
             meta["verified"]["note"] = NOTE[i]
         json.dump(meta, open(mp, "w"), indent=1)
         missed_first += was_missed
-        if own["exit"] == 1:
+        if own["exit"] == 1 or (own["exit"] == 2 and own["clauses"]):
+            # (exit 2 with clauses: violations were reported and, besides, the changed plugin made the harness's
+            # own traffic fail - counted as reported, the record keeps the exit code)
             n_own += 1
             rep = " ".join(own["clauses"]) + (" (missed at first)" if was_missed else "")
             shutil.copy(os.path.join(SEEDED, i, "patch.diff"), os.path.join(VERIF, "sim", "mutants", i + ".patch"))
@@ -179,6 +202,7 @@ def cmd_records():
 
 if __name__ == "__main__":
     if sys.argv[1] == "run":
-        cmd_run(int(sys.argv[2]) if len(sys.argv) > 2 else 4, int(sys.argv[3]) if len(sys.argv) > 3 else 8000)
+        cmd_run(int(sys.argv[2]) if len(sys.argv) > 2 else 4, int(sys.argv[3]) if len(sys.argv) > 3 else 8000,
+                sys.argv[4] if len(sys.argv) > 4 else None)
     elif sys.argv[1] == "records":
         cmd_records()
